@@ -17,6 +17,8 @@ Correspondence (every run): for every generated ITS graph
   rsmi_to_its(rsmi, core=True, options)  == model centre of the ITS of that reaction (see `entry_cases`)
   the same on ITS graphs with extra unselected attributes (`weight`, `label`, ...), with ==-equal numbers written in mixed
   ways, on larger structured shapes; find_nearest_neighbors(its, centre, k) / re-queried extract_k == model balls (`direct_cases`)
+  the same on ITS graphs whose element symbols look like other elements ('Hg', 'He' next to 'H', ...: `lookalike_streams`), on ITS
+  with more than 256 atoms (`large_stream`), and after other public calls on the same object (`sequence_cases`)
 On a divergence the specification itself is evaluated on the implementation's output
 (`spec.its.rc` in Lean; distance balls by NetworkX shortest paths) to decide between a VIOLATION with
 that input and a broken correspondence.
@@ -436,12 +438,12 @@ def free_radius_verdict(ctx, its, I0, K, m_rc):
     return free_radius_compare(K, r, ctx.lean().ok([{"cmd": "its.extractK", "its": I0, "k": r}])[0])
 
 
-def aux_cases(ctx, cases, tag, all_params=False):
+def aux_cases(ctx, cases, tag, all_params=False, max_nodes=AUX_MAX_NODES):
     """cases: list of (its, meta).  The remaining public routes into the centre / context code."""
     keep, reqs = [], []
     chunk, chunks = [], []
     for its, meta in cases:
-        if len(its) > AUX_MAX_NODES:
+        if len(its) > max_nodes:
             ctx.count(f"{tag}:aux:skipped-large")
             continue
         chunk.append((its, meta))
@@ -990,10 +992,12 @@ def materialize(its, meta):
     return its
 
 
-def structured_its(rnd):
-    """Shapes in which the radii 1, 2, 3 give different contexts, on more atoms than the exhaustive / random streams."""
-    shape = rnd.choice(["chain", "chain", "ring", "star", "tree", "caterpillar", "two-parts", "dense"])
-    n = rnd.randint(4, 5) if shape == "dense" else rnd.randint(5, 14)
+def structured_its(rnd, n=None, shapes=None):
+    """Shapes in which the radii 1, 2, 3 give different contexts, on more atoms than the exhaustive / random streams.
+    (`n`, `shapes`: the large stream asks for a given number of atoms; the defaults draw exactly as before.)"""
+    shape = rnd.choice(shapes or ["chain", "chain", "ring", "star", "tree", "caterpillar", "two-parts", "dense"])
+    if n is None:
+        n = rnd.randint(4, 5) if shape == "dense" else rnd.randint(5, 14)
     ids = list(range(1, n + 1))
     lab = {i: (rnd.choice(["C", "C", "C", "N", "O", "S"]), False, rnd.choice([0, 0, 1, 2]), rnd.choice([0, 0, 0, 1, -1])) for i in ids}
     bonds = {}
@@ -1211,6 +1215,468 @@ def npint_probe(ctx):
                           {"its": graphio.graph(its), "note": "every non-zero integral standard_order rewritten as numpy.int64"}, {"stream": "npint-probe"})
 
 
+# ------------------------------------------------------------------ look-alike labels / sizes beyond the small-int cache / call sequences
+#   (e) LOOK-ALIKE element symbols: two-letter symbols whose first letter is itself an element ('Hg', 'He', 'Hf', 'Ho', 'Hs' next
+#       to 'H'; 'Cl', 'Co', 'Cs' next to 'C'; 'Na', 'Ne', 'Ni' next to 'N'; ...) and symbols that contain another one ('Rh', 'Th').
+#       A two-character string is a 2-sequence, has a first letter, a prefix, ...: the property's "hydrogen" is the atom whose
+#       element IS 'H' (the model tests `element = .str "H"`).  Random molecule-like ITS with part of the atoms of one family
+#       renamed to look-alikes plus planted atom pairs of that family (bond unchanged / formed / broken / order changed); ALL ITS on
+#       two atoms over a mixed alphabet (thorough: also on three); reaction SMILES with look-alike spectators / metal-metal dimers
+#       through rsmi_to_its(core=True) and through the ITS construction.
+#   (f) LARGE: ITS on more than 256 atoms / bonds (chain, ring, star with a hub of degree > 256, tree, caterpillar), atom ids and
+#       atom maps beyond CPython's small-int cache and every occurrence of an id a DISTINCT int object (`is` and `==` differ only
+#       there), an unchanged H-H pair among the last atoms.  The Lean side is the linear its.rc / its.extractK (no enumeration);
+#       the relabelled copy comes with its bijection, and only the (small) centres go to match.iso.
+#   (g) SEQUENCES: get_rc, then one to three other public calls on the same / another object (find_unequal_order_edges,
+#       longest_radius_extension, extract_k, get_rc with other options, get_rc of another ITS), then get_rc and extract_k again;
+#       paralle_context_extraction on a list that holds the same object twice.  The model side is computed per query.
+LOOKALIKE = {
+    "H": ["He", "Hf", "Hg", "Ho", "Hs", "Hg", "He", "Rh", "Th"],
+    "C": ["Cl", "Co", "Cs", "Ca", "Cu", "Cr", "Cd", "Ce", "Sc", "Tc"],
+    "N": ["Na", "Ne", "Ni", "Nb", "Nd", "Np", "Zn", "Sn", "Mn"],
+    "O": ["Os", "Og", "Co", "Po", "Ho"],
+    "S": ["Si", "Sn", "Se", "Sb", "Sr", "Sc", "Cs", "Os", "Hs"],
+    "B": ["Br", "Ba", "Be", "Bi", "Rb"],
+    "F": ["Fe", "Fr", "Fm", "Hf"],
+    "P": ["Pd", "Pt", "Pb", "Po", "Np"],
+    "I": ["In", "Ir", "Ni", "Si"],
+}
+FAMILIES = ["H"] * 9 + ["C", "C", "N", "N", "O", "S", "B", "F", "P", "I"]
+
+
+def family_alphabet(rnd, x):
+    la = rnd.sample(sorted(set(LOOKALIKE[x])), rnd.choice([1, 2, 3]))
+    return [x, x] + la + la
+
+
+def set_elements(G, H, sub):
+    """Rename atoms (same symbol on both sides) and rebuild the `neighbors` lists of both graphs."""
+    for X in (G, H):
+        for n, e in sub.items():
+            X.nodes[n]["element"] = e
+        for n in X.nodes:
+            X.nodes[n]["neighbors"] = sorted(X.nodes[m]["element"] for m in X.neighbors(n))
+
+
+def lookalike_its(rnd):
+    """Molecule-like ITS in which atoms of one family (an element X and the two-letter symbols that look like it) sit next to
+    each other: about half of the X atoms of a random (G, H) pair renamed, one or two planted pairs drawn from the family
+    (mostly with an UNCHANGED bond), sometimes tied to the rest by an unchanged bond so that the contexts differ."""
+    G, H, tags = base.random_pair(rnd, 7)
+    x = rnd.choice(FAMILIES)
+    alpha = family_alphabet(rnd, x)
+    sub = {}
+    for n in sorted(G.nodes):
+        e = G.nodes[n]["element"]
+        c = rnd.random()
+        if e == x and c < 0.5:
+            sub[n] = rnd.choice(alpha)
+        elif e in LOOKALIKE and c < 0.15:
+            sub[n] = rnd.choice(LOOKALIKE[e])
+        elif c < 0.04:
+            sub[n] = "*"
+    top = max(G.nodes)
+    planted = []
+    for _ in range(rnd.choice([1, 1, 2])):
+        a, b = top + 1, top + 2
+        top += 2
+        ea, eb = rnd.choice(alpha), rnd.choice(alpha)
+        rest = sorted(G.nodes)
+        for X in (G, H):
+            X.add_node(a, element=ea, aromatic=False, hcount=0, charge=0, neighbors=[], atom_map=a)
+            X.add_node(b, element=eb, aromatic=False, hcount=0, charge=0, neighbors=[], atom_map=b)
+        how = rnd.choice(["unchanged"] * 5 + ["formed", "broken", "order"])
+        og, oh = {"unchanged": (1.0, 1.0), "formed": (None, 1.0), "broken": (1.0, None), "order": (1.0, 2.0)}[how]
+        if how == "unchanged" and rnd.random() < 0.25:
+            og = oh = rnd.choice([2.0, 3.0])
+        if og:
+            G.add_edge(a, b, order=og)
+        if oh:
+            H.add_edge(a, b, order=oh)
+        tied = rnd.random() < 0.5
+        if tied:
+            t = rnd.choice(rest)
+            G.add_edge(a, t, order=1.0)
+            H.add_edge(a, t, order=1.0)
+        planted.append([ea, eb, how, "tied" if tied else "apart"])
+    set_elements(G, H, sub)
+    its = base.impl_its(G, H)
+    meta = {"edits": tags, "family": x, "planted": planted}
+    c = rnd.random()
+    if c < 0.12:                                               # the documented typesGH fall-back of the H-H pass, next to look-alikes
+        its.nodes[top].pop("typesGH", None)
+        meta["typesGH_dropped"] = 1
+    elif c < 0.2:                                              # a hand-made ITS: atoms carry nothing but element and atom_map
+        for n, d in its.nodes(data=True):
+            for k in list(d):
+                if k not in ("element", "atom_map"):
+                    del d[k]
+        meta["bare"] = True
+    return its, meta
+
+
+def exhaustive_lookalike(n, alphabet, codes):
+    """All ITS on n shared atoms whose elements are drawn from `alphabet` (every ordered pattern: the code may treat the two
+    ends of a bond differently), every unordered pair of atoms with an (order_G, order_H) pair from `codes`."""
+    ids = list(range(1, n + 1))
+    pairs = list(itertools.combinations(ids, 2))
+    for pat in itertools.product(alphabet, repeat=n):
+        lab = {i: (pat[i - 1], False, 0, 0) for i in ids}
+        for choice in itertools.product(codes, repeat=len(pairs)):
+            bg = {pr: float(c[0]) for pr, c in zip(pairs, choice) if c[0]}
+            bh = {pr: float(c[1]) for pr, c in zip(pairs, choice) if c[1]}
+            yield base.impl_its(base.mk_mol(ids, lab, bg), base.mk_mol(ids, lab, bh)), {"n": n, "elements": list(pat)}
+
+
+def lookalike_counts(ctx, tag, its):
+    """Input distribution: unchanged bonds whose two atoms are (i) both real hydrogens, (ii) look-alikes of hydrogen / a
+    hydrogen and a look-alike, (iii) two-letter symbols of another family."""
+    for u, v, d in its.edges(data=True):
+        o = d.get("order")
+        if not (isinstance(o, tuple) and len(o) == 2 and o[0] == o[1]):
+            continue
+        a, b = its.nodes[u].get("element"), its.nodes[v].get("element")
+        if not (isinstance(a, str) and isinstance(b, str)):
+            continue
+        if a == "H" and b == "H":
+            ctx.count(f"{tag}:unchanged bond H-H")
+        elif a[:1] == "H" and b[:1] == "H":
+            ctx.count(f"{tag}:unchanged bond between H-look-alikes (Hg-Hg, H-He, ...)")
+        elif len(a) == 2 and len(b) == 2:
+            ctx.count(f"{tag}:unchanged bond between two two-letter symbols")
+
+
+# ---- reaction SMILES with look-alike atoms
+LOOK_SPECTATORS = [
+    "[Hg:{a}][Hg:{b}]", "[Hg:{a}][Hg:{b}]", "[Cl:{c}][Hg:{a}][Hg:{b}][Cl:{d}]", "[H:{a}][Hg:{b}][H:{c}]", "[H:{a}][Hg:{b}]", "[Hf:{a}][Hf:{b}]",
+    "[Ho:{a}][Ho:{b}]", "[Hs:{a}][Hs:{b}]", "[H:{a}][He+:{b}]", "[Hg:{a}][Hf:{b}]", "[Hg:{a}]=[Hg:{b}]", "[CH3:{c}][Hg:{a}][Hg:{b}][CH3:{d}]",
+    "[H:{c}][Hf:{a}][Hf:{b}][H:{d}]", "[Hg+:{a}][Hg+:{b}]", "[He:{a}].[He:{b}]", "[H:{a}][H:{b}].[Hg:{c}][Hg:{d}]", "[H:{a}][H:{b}].[Ho:{c}][Hs:{d}]",
+    "[Na:{a}][Na:{b}]", "[Cl:{a}][Cl:{b}]", "[Co:{a}][Co:{b}]", "[Cs:{a}][Cl:{b}]", "[Ni:{a}][Ni:{b}]", "[Os:{a}]=[Os:{b}]", "[Si:{a}][Si:{b}]",
+    "[Sn:{a}][Sn:{b}]", "[Br:{a}][Br:{b}]", "[Cu:{a}][Cu:{b}]", "[Fe:{a}][Fe:{b}]", "[Pt:{a}][Pd:{b}]", "[Rh:{a}][Rh:{b}]", "[Th:{a}][Th:{b}]",
+    "[CH3:{a}][Cl:{b}]", "[NH2:{a}][Na:{b}]", "[CH3:{a}][Co:{b}]", "[Nb:{a}][Nb:{b}]", "[Ca:{a}]([Cl:{b}])[Cl:{c}]",
+]
+LOOK_METALS = ["Hg", "Hg", "Hg", "Hf", "Ho", "Hs", "Hg", "Co", "Ni", "Cu", "Fe", "Sn", "Os", "Nb", "Pd", "Pt", "Rh", "Cs", "Na"]
+LOOK_LIGANDS = ["Cl", "Br", "I", "F", "Cl"]
+LOOK_TEMPLATES = [
+    # ligand exchange at a metal-metal bonded dimer (the M-M bond is the same on both sides)
+    "[{X}:1][{M}:2][{N}:3][{Y}:4].[{Z}-:5]>>[{X}-:1].[{Z}:5][{M}:2][{N}:3][{Y}:4]",
+    "[{X}:1][{M}:2][{N}:3][{Y}:4].[{Z}-:5].[{Z}-:6]>>[{X}-:1].[{Z}:5][{M}:2][{N}:3][{Z}:6].[{Y}-:4]",
+    # hydrogen added across / released from the dimer (H-H broken or formed, M-M kept)
+    "[H:1][H:2].[{M}:3][{N}:4]>>[H:1][{M}:3][{N}:4][H:2]",
+    "[H:1][{M}:3][{N}:4][H:2]>>[H:1][H:2].[{M}:3][{N}:4]",
+    "[H:1][{M}:2].[{X}:3][{X}:4]>>[H:1][{X}:3].[{M}:2][{X}:4]",
+    "[H:1][{M}:2][{N}:3].[H:4][{X}:5]>>[H:1][H:4].[{X}:5][{M}:2][{N}:3]",
+    # the dimer bond itself changes (control: it has to be in the centre)
+    "[{X}:1][{M}:2][{N}:3][{Y}:4]>>[{X}:1][{M}:2].[{N}:3][{Y}:4]",
+    "[{M}:1][{N}:2]>>[{M}:1]=[{N}:2]",
+    # the dimer next to an ordinary substitution
+    "[{M}:1][{N}:2].[CH3:3][{X}:4].[OH-:5]>>[{M}:1][{N}:2].[CH3:3][OH:5].[{X}-:4]",
+]
+
+
+def _fresh_maps(rsmi):
+    import re
+    return max([int(x) for x in re.findall(r":(\d+)\]", rsmi)] or [0])
+
+
+def lookalike_rsmi(ctx, n_corpus, n_templates):
+    """-> list of (rsmi, meta): corpus reactions with unchanged look-alike spectators on both sides (fresh map numbers), and
+    template reactions at metal-metal dimers with the metals / ligands drawn from the look-alike pools."""
+    rnd = ctx.rnd
+    out = []
+    recs = load_reactions()
+    for rec in rnd.sample(recs, min(n_corpus, len(recs))):
+        rsmi = rec["rsmi"]
+        try:
+            l, r = rsmi.split(">>")
+        except ValueError:
+            continue
+        top = _fresh_maps(rsmi)
+        extra = []
+        for _ in range(rnd.choice([1, 1, 2])):
+            t = rnd.choice(LOOK_SPECTATORS)
+            extra.append(t.format(a=top + 1, b=top + 2, c=top + 3, d=top + 4))
+            top += 4
+        side = ".".join(extra)
+        v = (l + "." + side + ">>" + r + "." + side) if rnd.random() < 0.5 else (side + "." + l + ">>" + side + "." + r)
+        if rnd.random() < 0.3:
+            v = base.variant(v, rnd.choice(["renumber", "renumber_sparse", "shuffle", "reverse"]), rnd)
+        out.append((v, {"src": rec["src"], "idx": rec["idx"], "variant": "look-alike spectator", "spectator": extra}))
+    for _ in range(n_templates):
+        t = rnd.choice(LOOK_TEMPLATES)
+        m = rnd.choice(LOOK_METALS)
+        f = {"M": m, "N": m if rnd.random() < 0.6 else rnd.choice(LOOK_METALS), "X": rnd.choice(LOOK_LIGANDS), "Y": rnd.choice(LOOK_LIGANDS), "Z": rnd.choice(LOOK_LIGANDS)}
+        v = t.format(**f)
+        if rnd.random() < 0.4:
+            v = base.variant(v, rnd.choice(["renumber", "renumber_sparse", "shuffle", "spectator_h"]), rnd)
+        out.append((v, {"src": "look-alike template", "variant": "template", "elements": f}))
+    return out
+
+
+def lookalike_entry_stream(ctx, n_corpus, n_templates):
+    """-> (entry items for rsmi_to_its(core=True), ITS cases built by ITSConstruction from the parsed graphs)."""
+    items, cases = [], []
+    for rsmi, meta in lookalike_rsmi(ctx, n_corpus, n_templates):
+        opts = [{}] + [dict(ctx.rnd.choice(ENTRY_OPTS))]
+        seen = set()
+        for o in opts:
+            k = json.dumps(o, sort_keys=True)
+            if k not in seen:
+                seen.add(k)
+                items.append((rsmi, o, meta))
+        r, p, why = base.reaction_graphs(rsmi)
+        if why:
+            ctx.count("lookalike-entry:no graphs:" + why)
+            continue
+        cases.append((base.impl_its(r, p), dict(meta, rsmi=rsmi)))
+    return items, cases
+
+
+# ---- more than 256 atoms
+LARGE_SHAPES = ["star", "chain", "tree", "ring", "caterpillar", "two-parts"]
+
+
+def fresh_ints(its):
+    """The same graph, every occurrence of an atom id / atom map a separate int object (no two occurrences of an id above 256
+    are the same object, as after reading a file); equal under ==, same encoding."""
+    def f(x):
+        return int(str(int(x)))
+
+    J = nx.Graph()
+    for n, d in its.nodes(data=True):
+        e = dict(d)
+        if isinstance(e.get("atom_map"), int) and not isinstance(e.get("atom_map"), bool):
+            e["atom_map"] = f(e["atom_map"])
+        J.add_node(f(n), **e)
+    for u, v, d in its.edges(data=True):
+        J.add_edge(f(u), f(v), **dict(d))
+    return J
+
+
+def large_its(rnd, shape):
+    """-> (its, meta, (relabelled copy, bijection)).  257..420 atoms; 1-3 bond edits anywhere; an unchanged H-H pair appended (its
+    atoms are the last two of the graph, positions > 256), free or tied to an atom of the rest."""
+    while True:
+        n = rnd.randint(258, 420)
+        its, meta = structured_its(rnd, n=n, shapes=[shape])
+        if meta["edits"]:                                       # at least one bond really changes
+            break
+    top = max(its.nodes) + 1
+    hh = rnd.choice(["none", "apart", "apart", "tied"])
+    if hh != "none":
+        lab = {1: ("H", False, 0, 0), 2: ("H", False, 0, 0)}
+        m = base.mk_mol([1, 2], lab, {(1, 2): 1.0})
+        pair = nx.relabel_nodes(base.impl_its(m, m.copy()), {1: top, 2: top + 1}, copy=True)
+        for k, x in ((top, 1), (top + 1, 2)):
+            pair.nodes[k]["atom_map"] = k
+        rest = sorted(its.nodes)
+        its = nx.compose(its, pair)
+        if hh == "tied":
+            its.add_edge(top, rnd.choice(rest), order=(1.0, 1.0), standard_order=0.0)
+    its = fresh_ints(its)
+    ns = list(its.nodes)
+    new = rnd.sample(range(257, 257 + 3 * len(ns)), len(ns))
+    f = dict(zip(ns, new))
+    rel = fresh_ints(nx.relabel_nodes(its, f, copy=True))
+    meta = dict(meta, hh_pair=hh, large=True)
+    return its, meta, (rel, f)
+
+
+def large_stream(ctx, count):
+    """Large ITS through the main comparison (centre, K0..K3, idempotence: linear Lean commands), the direct stream, the auxiliary
+    entry points, and - with the planted bijection - centre(relabelled) == relabelled centre; match.iso only sees the centres."""
+    cases, isos = [], []
+    for i in range(count):
+        its, meta, (rel, f) = large_its(ctx.rnd, LARGE_SHAPES[i % len(LARGE_SHAPES)])    # every shape in every run (star: a hub of degree > 256)
+        ctx.count("large:shape:" + meta["shape"])
+        ctx.count("large:hh_pair:" + meta["hh_pair"])
+        ctx.count("large:more than 256 " + ("atoms and bonds" if its.number_of_edges() > 256 else "atoms"))
+        cases.append((its, meta))
+        cases.append((rel, dict(meta, relabelled=True)))
+        try:
+            a, b = impl_rc(its), impl_rc(rel)
+        except Exception:
+            continue                                            # its_cases reports it
+        want = nx.relabel_nodes(a, f, copy=True)
+        x, y = canon(enc(b), ["element", "charge", "typesGH"], RC_EDGE_KEYS), canon(enc(want), ["element", "charge", "typesGH"], RC_EDGE_KEYS)
+        ctx.count("large:planted-bijection checks")
+        if x != y:
+            ctx.violation("the centre of a relabelled large ITS is not the centre carried along the relabelling",
+                          {"stream": "large", "its": enc(its), "relabelled": enc(rel)}, {"diff": first_diff(x, y)})
+            return
+        if len(a) <= 12:
+            isos.append((a, b, {"stream": "large", "its": enc(its), "relabelled": enc(rel)}))
+    its_cases(ctx, cases, "large", derive=False)
+    if not ctx.violations:
+        direct_cases(ctx, cases, "large")
+    if not ctx.violations:
+        aux_cases(ctx, cases[::2], "large", max_nodes=1000)     # the graphs as built (the relabelled copies only above)
+    if not ctx.violations:
+        iso_cases(ctx, isos, "large")
+
+
+# ---- call sequences
+SEQ_STEPS = ["find_unequal_order_edges", "longest_radius_extension", "extract_k(2)", "extract_k(-1)", "get_rc(disconnected)", "get_rc(keep_mtg)",
+             "get_rc(element_key)", "get_rc(other ITS)", "extract_k(other ITS, 1)", "find_nearest_neighbors"]
+
+
+def _seq_step(name, its, other, centre):
+    from synkit.Graph.Context.radius_expand import RadiusExpand
+    if name == "find_unequal_order_edges":
+        RadiusExpand.find_unequal_order_edges(its)
+    elif name == "longest_radius_extension":
+        RadiusExpand.longest_radius_extension(its, list(centre))
+    elif name == "extract_k(2)":
+        impl_k(its, 2)
+    elif name == "extract_k(-1)":
+        impl_k(its, -1)
+    elif name == "get_rc(disconnected)":
+        impl_rc(its, disconnected=True)
+    elif name == "get_rc(keep_mtg)":
+        impl_rc(its, keep_mtg=True)
+    elif name == "get_rc(element_key)":
+        impl_rc(its, element_key=["element"])
+    elif name == "get_rc(other ITS)":
+        impl_rc(other)
+    elif name == "extract_k(other ITS, 1)":
+        impl_k(other, 1)
+    elif name == "find_nearest_neighbors":
+        impl_neighbours(its, list(centre), 1)
+
+
+def sequence_cases(ctx, cases, tag, fixed=None):
+    """get_rc / extract_k(1) AFTER other public calls, and paralle_context_extraction on [its, other, its]: == model per query."""
+    keep, reqs = [], []
+    other = None
+    for its, meta in cases:
+        if len(its) > AUX_MAX_NODES:
+            continue
+        I0 = enc(its)
+        oth = other if other is not None else its
+        other = its
+        steps = list(fixed) if fixed is not None else ctx.rnd.sample(SEQ_STEPS, ctx.rnd.choice([1, 2, 3]))
+        pk = ctx.rnd.choice([0, 1, 2])
+        try:
+            first = impl_rc(its)
+            for s in steps:
+                _seq_step(s, its, oth, first.nodes)
+            again = impl_rc(its)
+            K1 = impl_k(its, 1)
+            par = impl_parallel_contexts([its, oth, its], "ITS", "K", pk)
+        except Exception as e:
+            ctx.violation("a sequence of public calls on an ITS raises", {"stream": tag, "its": I0, "meta": meta, "sequence": steps}, {"error": repr(e)[:300]})
+            continue
+        if enc(its) != I0:
+            ctx.violation("a sequence of public calls mutated the ITS", {"stream": tag, "its": I0, "meta": meta, "sequence": steps})
+        keep.append((I0, meta, steps, pk, first, again, K1, par, len(reqs)))
+        reqs.append({"cmd": "its.rc", "its": I0})
+        reqs.append({"cmd": "its.extractK", "its": I0, "k": 1})
+        if pk == 2:
+            reqs.append({"cmd": "its.extractK", "its": I0, "k": 2})
+    reps = ctx.lean().ok(reqs, shards=8)
+    for I0, meta, steps, pk, first, again, K1, par, at in keep:
+        if len(ctx.violations) >= 6:
+            return
+        m_rc, m_k1 = reps[at], reps[at + 1]
+        m_pk = m_rc if pk == 0 else m_k1 if pk == 1 else reps[at + 2]
+        case = {"stream": tag, "its": I0, "meta": meta, "sequence": steps}
+        ctx.case(["sequence", I0, steps, pk], len(m_rc["nodes"]) >= 2)
+        ctx.count(f"{tag}:sequence:cases")
+        for s in steps:
+            ctx.count(f"{tag}:sequence:step:{s}")
+        want = canon(m_rc, RC_KEYS, RC_EDGE_KEYS)
+        if canon(enc(first), RC_KEYS, RC_EDGE_KEYS) != want:
+            ctx.violation("reaction centre differs from the proven model (changed bonds + H-H bonds, end points, labels)", case,
+                          {"diff": first_diff(canon(enc(first), RC_KEYS, RC_EDGE_KEYS), want)})
+            continue
+        if canon(enc(again), RC_KEYS, RC_EDGE_KEYS) != want:
+            ctx.violation("get_rc gives another centre after other public calls on the same ITS (" + ", ".join(steps) + ")", case,
+                          {"diff": first_diff(canon(enc(again), RC_KEYS, RC_EDGE_KEYS), want)})
+            continue
+        x, y = canon(enc(K1), ITS_NODE_KEYS, ITS_EDGE_KEYS), canon(m_k1, ITS_NODE_KEYS, ITS_EDGE_KEYS)
+        if x != y:
+            ctx.violation("extract_k(its, 1) after other public calls is not the radius-1 context of the model", case, {"diff": first_diff(x, y)})
+            continue
+        nk, ek = (RC_KEYS, RC_EDGE_KEYS) if pk == 0 else (ITS_NODE_KEYS, ITS_EDGE_KEYS)
+        y = canon(m_pk, nk, ek)
+        for pos in (0, 2):
+            x = canon(enc(par[pos]), nk, ek)
+            ctx.count(f"{tag}:sequence:same object twice in paralle_context_extraction:k={pk}")
+            if x != y:
+                ctx.violation(f"paralle_context_extraction(n_knn={pk}) on a list holding the same ITS twice: entry {pos} is not the radius-{pk} context of the model",
+                              case, {"diff": first_diff(x, y)})
+                break
+
+
+def lookalike_streams(ctx):
+    q = ctx.quick
+    # tiny-exhaustive over a mixed alphabet
+    full = [(0, 0), (0, 1), (0, 2), (1, 0), (1, 1), (1, 2), (2, 0), (2, 1), (2, 2)]
+    ex = list(exhaustive_lookalike(2, ["H", "He", "Hg", "C", "Cl", "*"], full))
+    ex3 = exhaustive_lookalike(3, ["H", "Hg", "He", "C"], [(0, 0), (1, 1), (1, 0), (1, 2)])
+    if q:
+        ex3 = list(ex3)
+        ex += ctx.rnd.sample(ex3, 150)
+    else:
+        ex += list(ex3)
+    for its, _ in ex:
+        lookalike_counts(ctx, "lookalike-exhaustive", its)
+    its_cases(ctx, ex, "lookalike-exhaustive")
+    if not ctx.violations:
+        aux_cases(ctx, ex if q else ctx.rnd.sample(ex, 1500), "lookalike-exhaustive")
+    if ctx.violations:
+        return
+    # random molecule-like ITS of one family
+    cases, isos, opts = [], [], []
+    for _ in range(160 if q else 1000):
+        its, meta = lookalike_its(ctx.rnd)
+        ctx.count("lookalike:family:" + meta["family"])
+        for ea, eb, how, tied in meta["planted"]:
+            ctx.count(f"lookalike:planted pair:{how}:{tied}")
+        if meta.get("bare"):
+            ctx.count("lookalike:atoms carry only element and atom_map")
+        lookalike_counts(ctx, "lookalike", its)
+        cases.append((its, meta))
+        if ctx.rnd.random() < 0.3:
+            rel = relabel(its, ctx.rnd)
+            cases.append((rel, dict(meta, relabelled=True)))
+            isos.append((impl_rc(its), impl_rc(rel), {"stream": "lookalike", "its": enc(its), "relabelled": enc(rel)}))
+        o = {}
+        if ctx.rnd.random() < 0.4:
+            o["disconnected"] = True
+        if ctx.rnd.random() < 0.3:
+            o["keep_mtg"] = True
+        if ctx.rnd.random() < 0.5:
+            o["element_key"] = ctx.rnd.choice([["element"], ["atom_map", "element"], ["element", "charge", "atom_map"], ["typesGH"],
+                                               ["element", "hcount", "aromatic", "typesGH", "neighbors"]])
+        if ctx.rnd.random() < 0.3:
+            o.update(ctx.rnd.choice([{"bond_key": "bo", "standard_key": "so"}, {"bond_key": "bond"}, {"standard_key": "delta"}]))
+        opts.append((its, o))
+    its_cases(ctx, cases, "lookalike")
+    if not ctx.violations:
+        aux_cases(ctx, cases, "lookalike")
+    if not ctx.violations:
+        direct_cases(ctx, cases, "lookalike")
+    if not ctx.violations:
+        sequence_cases(ctx, cases, "lookalike")
+    if not ctx.violations:
+        iso_cases(ctx, isos, "lookalike")
+    if not ctx.violations:
+        options_cases(ctx, opts, "lookalike-options")
+    if ctx.violations:
+        return
+    # reaction SMILES
+    items, rcases = lookalike_entry_stream(ctx, 25 if q else 150, 35 if q else 200)
+    for its, _ in rcases:
+        lookalike_counts(ctx, "lookalike-entry", its)
+    entry_cases(ctx, items, "lookalike-entry")
+    if not ctx.violations:
+        its_cases(ctx, rcases, "lookalike-entry")
+    if not ctx.violations:
+        aux_cases(ctx, rcases, "lookalike-entry")
+    if not ctx.violations:
+        sequence_cases(ctx, rcases, "lookalike-entry")
+
 
 def run(ctx):
     base.quiet()
@@ -1242,7 +1708,10 @@ def run(ctx):
                        "'within k bonds' counts bonds: attributes that get_rc / the context code do not select (weight, label, id, name, capacity, ... on bonds "
                        "or atoms) are legal on an ITS and never change a centre or a context; whether they are copied into the result is not gated",
                        "numbers that are equal under == (1, 1.0, numpy.float64(1.0), numpy.int64(1)) are the same ITS value (one Lean Val.num; bool kept apart); "
-                       "standard_order given as numpy.int64 is gated since the repair F43 (get_rc tested isinstance(std, (int, float)))"]
+                       "standard_order given as numpy.int64 is gated since the repair F43 (get_rc tested isinstance(std, (int, float)))",
+                       "'hydrogen' is an atom whose element IS the string 'H' (Lean: element = .str \"H\"); 'He', 'Hg', 'Hf', 'Ho', 'Hs', '*' and a missing "
+                       "element are not hydrogen, so an unchanged bond between such atoms is not part of the centre",
+                       "answers do not depend on earlier calls: every query of the sequence stream is compared with the (pure) model of that query alone"]
     ctx.gen_rule = ("regressions first; ITS graphs of the vendored corpus reactions (ecoli, USPTO sample, hydrogen set) and of a dense and a sparse "
                     "atom-map renumbering of each, plus the 50 stored hydrogen-set ITS graphs (quick: 40 reactions + 10 stored); ALL ITS on n<=3 atoms "
                     "(3 element patterns over {C,H}, per-pair order pairs {0,1,2}^2) (thorough: also n=4 with pairs from {00,11,10,01,12}); random "
@@ -1265,7 +1734,24 @@ def run(ctx):
                     "since the repair F43), order pair / typesGH as list on 20% of the bonds / atoms, 35% of the graphs with about half of "
                     "the atom ids numpy.int64; 'shapes': the base graphs as built. Each of the three goes through the main comparison (centre, K0..K3, idempotence, "
                     "derived copies), the auxiliary entry points, and the direct stream: find_nearest_neighbors(its, centre atoms as list / reversed / shuffled / with "
-                    "repeats, k in 0..3) and extract_k re-queried on the same object in a shuffled radius order, node sets == model its.rc / its.extractK.")
+                    "repeats, k in 0..3) and extract_k re-queried on the same object in a shuffled radius order, node sets == model its.rc / its.extractK. "
+                    "Look-alike element symbols: ALL ITS on 2 atoms with every ordered element pattern over {H, He, Hg, C, Cl, *} x order pairs {0,1,2}^2 and "
+                    "(quick: 150 drawn from / thorough: all 4096) ITS on 3 atoms over {H, Hg, He, C} x pairs {00,11,10,12}; 160 (1000) random molecule-like ITS in "
+                    "which about half of the atoms of one element X (H in 9 of 19 draws; C, N, O, S, B, F, P, I) are renamed to two-letter symbols that start "
+                    "with / contain X (Hg, He, Hf, Ho, Hs, Rh, Th; Cl, Co, Cs, ...; Na, Ne, Ni, ...), plus one or two planted atom pairs drawn from {X, look-alikes} "
+                    "with the bond unchanged (5 of 8; single, sometimes double / triple) / formed / broken / order changed, half of them tied to the rest by an "
+                    "unchanged bond; 12% with typesGH dropped on a planted atom, 8% with atoms that carry only element and atom_map; 30% also relabelled "
+                    "(centres compared by match.iso); all through the main comparison, the auxiliary entry points, the direct stream, get_rc options "
+                    "(disconnected, keep_mtg, element_key incl. permuted / larger key lists, bond_key / standard_key) and the sequence stream: get_rc, then 1-3 "
+                    "other public calls on the same or the previous ITS, then get_rc and extract_k(1) again, and paralle_context_extraction on [its, other, its]. "
+                    "Look-alike reactions: 25 (150) corpus reactions with 1-2 unchanged spectators on both sides drawn from Hg-Hg, Cl-Hg-Hg-Cl, H-Hg-H, Hf-Hf, H-He+, "
+                    "Na-Na, Cl-Cl, Co-Co, ... and 35 (200) template reactions at metal-metal dimers (ligand exchange, H2 added / released, dimer bond changed; "
+                    "metals and ligands drawn from pools), 30-40% also renumbered / shuffled / reversed / with hydrogen spectators: rsmi_to_its(core=True) "
+                    "under default options and one drawn option set, and the ITS of the parsed graphs through the main / auxiliary / sequence comparison. "
+                    "Large: 6 (12) ITS on 258..420 atoms, shapes cycling through star (hub of degree > 256), chain, tree, ring, caterpillar, two components, "
+                    ">= 1 bond edit, an unchanged H-H pair appended in 3 of 4 (its atoms are the last two), every occurrence of an atom id / atom map a "
+                    "distinct int object; each with a relabelled copy (ids 257..), centre(relabelled) == centre carried along the known bijection; main, "
+                    "direct and auxiliary comparison (Lean its.rc / its.extractK / its.extractFree are linear here), match.iso on centres of <= 12 atoms only.")
     ctx.nontrivial_rule = "distinct encoded ITS with a centre of >=2 atoms and at least one atom outside the centre"
     build_and_audit(ctx, ["SynKitProofs.Props.C02"], "SynKitProofs/Audit/C02.lean", THEOREMS)
 
@@ -1340,6 +1826,10 @@ def run(ctx):
             if not ctx.violations:
                 direct_cases(ctx, cs, tag)
         npint_probe(ctx)
+    if not ctx.violations:
+        lookalike_streams(ctx)
+    if not ctx.violations:
+        large_stream(ctx, 6 if ctx.quick else 12)
     ctx.obligation("correspondence: get_rc == model getRc; extract_k(k=0..3) == model extractK; get_rc(get_rc) == get_rc; "
                    "centre of renumbered reaction iso centre (Lean match.iso)", not ctx.violations)
 
@@ -1353,11 +1843,15 @@ def _replay_one(ctx, c, tag):
         options_cases(ctx, [(rename_edge_keys_back(its, o.get("bond_key", "order"), o.get("standard_key", "standard_order")), o)], tag)
     elif "its" in c and "relabelled" not in c:
         its = materialize(graphio.to_nx(c["its"]), c.get("meta"))
+        if isinstance(c.get("meta"), dict) and c["meta"].get("large"):
+            its = fresh_ints(its)
         its_cases(ctx, [(its, c.get("meta"))], tag)
         if not ctx.violations:
-            aux_cases(ctx, [(its, c.get("meta"))], tag, all_params=True)
+            aux_cases(ctx, [(its, c.get("meta"))], tag, all_params=True, max_nodes=1000)
         if not ctx.violations:
             direct_cases(ctx, [(its, c.get("meta"))], tag, all_params=True)
+        if not ctx.violations:
+            sequence_cases(ctx, [(its, c.get("meta"))], tag, fixed=c.get("sequence"))
     elif "relabelled" in c and "its" in c:
         a, b = graphio.to_nx(c["its"]), graphio.to_nx(c["relabelled"])
         iso_cases(ctx, [(impl_rc(a), impl_rc(b), c)], tag)
